@@ -70,7 +70,8 @@ def observe(ctx, bank, cheap=True):
     """everything a user can see of a context"""
     obs = {}
     st, d = call(ctx.to_dict)
-    obs["to_dict"] = repr(sorted(d.items(), key=lambda kv: kv[0])) if st == "ok" else ("ERR", type(d).__name__)
+    # (a sequence option given as a tuple is the same option as the list)
+    obs["to_dict"] = repr(sorted(((k, list(v) if isinstance(v, tuple) else v) for k, v in d.items()), key=lambda kv: kv[0])) if st == "ok" else ("ERR", type(d).__name__)
     st, s = call(ctx.to_string)
     obs["to_string"] = s if st == "ok" else ("ERR", type(s).__name__)
     st, v = call(lambda: tuple(ctx.schemes()))
@@ -172,6 +173,7 @@ INVALID_ITEMS = [
     ("default-not-in-schemes", {"default": "no_such_scheme"}),
     ("deprecated-not-in-schemes", {"deprecated": ["no_such_scheme"]}),
     ("default-deprecated", "SPECIAL"),
+    ("category-default-deprecated", "SPECIAL"),
     ("all-deprecated", "SPECIAL"),
     ("rounds-not-int", {"sha256_crypt__rounds": "many", "schemes": ["sha256_crypt", "md5_crypt"]}),
     ("min-above-max", {"sha256_crypt__min_rounds": 3000, "sha256_crypt__max_rounds": 2000, "schemes": ["sha256_crypt", "md5_crypt"]}),
@@ -189,10 +191,16 @@ INVALID_ITEMS = [
 ]
 
 
+MUST_REFUSE = {"unknown-scheme", "default-not-in-schemes", "deprecated-not-in-schemes", "default-deprecated", "category-default-deprecated", "all-deprecated", "duplicate-scheme",
+               "forbidden-salt", "forbidden-salt-all", "four-part-key", "schemes-wrong-type", "scheme-object-not-hasher"}
+
+
 def invalid_change(kind, base_cfg):
     names = list(base_cfg["schemes"])
     if kind == "default-deprecated":
         return {"default": names[0], "deprecated": [names[0]]}
+    if kind == "category-default-deprecated":
+        return {"staff__context__default": names[-1], "staff__context__deprecated": [names[-1]]}
     if kind == "all-deprecated":
         return {"deprecated": list(names), "default": None} if False else {"deprecated": list(names)}
     return dict(next(v for k, v in INVALID_ITEMS if k == kind))
@@ -202,6 +210,8 @@ def invalid_change(kind, base_cfg):
 def o_roundtrip(rec: Recorder, case, soft=False):
     """case: {config, via: dict|string|copy|empty-update|load-ctx|load-string|copy-kw}"""
     cfg, via = case["config"], case["via"]
+    if case.get("tuples"):
+        cfg = {k: (tuple(v) if isinstance(v, list) else v) for k, v in cfg.items()}  # sequences may be given as tuples
     try:
         Model(cfg)
         for s in Model(cfg).names:
@@ -262,6 +272,20 @@ def o_roundtrip(rec: Recorder, case, soft=False):
             return
 
 
+def ini_text(change):
+    """INI rendering of a change dict (None when a value has no INI spelling)"""
+    lines = ["[passlib]"]
+    for k, v in change.items():
+        if isinstance(v, (list, tuple)):
+            if not all(isinstance(x, str) for x in v):
+                return None
+            v = ", ".join(v)
+        elif not isinstance(v, (str, int, float, bool)):
+            return None
+        lines.append(f"{k} = {str(v).replace('%', '%%')}")
+    return "\n".join(lines) + "\n"
+
+
 @oracle(PROPERTY, "update_overlay")
 def o_update(rec: Recorder, case, soft=False):
     """update(k) replaces exactly the given keys"""
@@ -292,10 +316,39 @@ def o_update(rec: Recorder, case, soft=False):
     how = case.get("how", "kw")
     call(ctx.dummy_verify)  # the context has been in use (lazily built helpers exist) before it is changed
     call(ctx.hash, PW)
-    st, r = call(ctx.update, **change) if how == "kw" else (call(ctx.update, dict(change)) if how == "dict" else call(ctx.load, dict(change), update=True))
+    target = ctx
+    if how == "kw":
+        st, r = call(ctx.update, **change)
+    elif how == "dict":
+        st, r = call(ctx.update, dict(change))
+    elif how == "load-update":
+        st, r = call(ctx.load, dict(change), update=True)
+    elif how in ("using", "copy-kw"):
+        # copy(**k) and its documented alias using(**k): a NEW context with exactly the given keys replaced, the original untouched
+        before_orig = observe(ctx, bank_for(cfg))
+        st, r = call(ctx.using if how == "using" else ctx.copy, **change)
+        target = r
+        if st == "ok" and observe(ctx, bank_for(cfg)) != before_orig:
+            rec.fail(f"C10/{how}-mutates-original", f"{how}(**k) changed the context it was called on", "update_overlay", case, None, None, soft=soft)
+            return
+    else:  # load_path(update=True): the change comes from an INI file
+        import os
+        import tempfile
+
+        ini = ini_text(change)
+        if ini is None:
+            return
+        fd, path = tempfile.mkstemp(prefix="vpchk-c10-", suffix=".cfg")
+        try:
+            with os.fdopen(fd, "w", encoding="utf-8") as fh:
+                fh.write(ini)
+            st, r = call(ctx.load_path, path, update=True)
+        finally:
+            os.unlink(path)
     if st == "err":
-        rec.fail("C10/valid-update-rejected", "update() with a change that gives a valid configuration raises", "update_overlay", case, repr(r), None, soft=soft)
+        rec.fail("C10/valid-update-rejected", f"{how} with a change that gives a valid configuration raises", "update_overlay", case, repr(r), None, soft=soft)
         return
+    ctx = target
     bank = bank_for(merged)
     a, b = observe(ctx, bank), observe(fresh, bank)
     d = diff(a, b)
@@ -343,6 +396,10 @@ def o_fault(rec: Recorder, case, soft=False):
         # the property speaks about changes that FAIL; whether this particular item must be refused is not asserted here
         # (options for schemes that are not listed are ignored, relaxed clamping accepts out-of-range sizes, ...)
         rec.count(f"fault-not-refused:{kind}")
+        if kind in MUST_REFUSE:
+            # the kinds the property itself names as failing changes (inconsistent default/deprecated, unknown or duplicate scheme, forbidden salt,
+            # malformed key, wrong type): accepting one leaves a context that contradicts its own policy
+            rec.fail(f"C10/invalid-change-accepted/{kind}", f"a change the documented rules refuse ({kind}) is accepted by {how}", "fault", case, None, "ValueError/KeyError/TypeError", soft=soft)
         return
     after = observe(ctx, bank)
     d = diff(before, after)
@@ -493,7 +550,7 @@ def t_roundtrip(rec, seed, tier, shard):
     from hypothesis import strategies as st
 
     n = {"quick": 60, "thorough": 800}[tier]
-    cases = st.fixed_dictionaries({"config": ctxgen.configs(catchall=False, extras=True), "via": st.sampled_from(VIAS)})
+    cases = st.fixed_dictionaries({"config": ctxgen.configs(catchall=False, extras=True), "via": st.sampled_from(VIAS), "tuples": st.sampled_from([False, False, True])})
 
     def body(case):
         rec.ev()
@@ -517,14 +574,41 @@ def t_roundtrip(rec, seed, tier, shard):
 def t_update(rec, seed, tier, shard):
     from hypothesis import strategies as st
 
-    n = {"quick": 50, "thorough": 600}[tier]
+    n = {"quick": 120, "thorough": 600}[tier]
 
     @st.composite
     def cases(draw):
         cfg = draw(ctxgen.configs(catchall=False, extras=True))
-        other = draw(ctxgen.configs(catchall=False, extras=True))
-        keys = draw(st.lists(st.sampled_from(sorted(other)), min_size=1, max_size=3, unique=True))
-        change = {k: other[k] for k in keys}
+        if draw(st.integers(0, 3)) == 0:
+            # keys taken from an unrelated configuration (often inconsistent with this one: the model decides, such cases are skipped)
+            other = draw(ctxgen.configs(catchall=False, extras=True))
+            keys = draw(st.lists(st.sampled_from(sorted(other)), min_size=1, max_size=3, unique=True))
+            change = {k: other[k] for k in keys}
+        else:
+            # a change built for this configuration's own schemes
+            names = [n for n in cfg["schemes"] if isinstance(n, str)]
+            real = [n for n in names if n != "postgres_md5"] or names
+            change = {}
+            for kind in draw(st.lists(st.sampled_from(["rounds", "rounds", "default", "deprecated", "cat-default", "cat-rounds", "salt_size"]), min_size=1, max_size=3, unique=True)):
+                costly = [n for n in names if ctxgen.POOL.get(n)]
+                if kind == "rounds" and costly:
+                    sch = draw(st.sampled_from(costly))
+                    change.update({f"{sch}__{k}": v for k, v in draw(ctxgen.rounds_options(sch, allow_beyond=False)).items()})
+                elif kind == "cat-rounds" and costly:
+                    sch = draw(st.sampled_from(costly))
+                    change.update({f"admin__{sch}__{k}": v for k, v in draw(ctxgen.rounds_options(sch, allow_beyond=False)).items()})
+                elif kind == "default":
+                    change["default"] = draw(st.sampled_from(real))
+                elif kind == "deprecated" and len(names) > 1:
+                    dflt = change.get("default", cfg.get("default"))
+                    cand = [n for n in names if n != dflt] if dflt else names[1:]
+                    change["deprecated"] = draw(st.one_of(st.just(["auto"]), st.lists(st.sampled_from(cand), min_size=1, max_size=len(cand), unique=True)))
+                elif kind == "cat-default":
+                    change["staff__context__default"] = draw(st.sampled_from(real))
+                elif kind == "salt_size" and "md5_crypt" in names:
+                    change["md5_crypt__salt_size"] = draw(st.integers(4, 8))
+            if not change:
+                change = {"default": real[0]}
         if draw(st.integers(0, 3)) == 0:
             # a documented global setting already present in the context is given again, in either spelling, with another value
             g = draw(st.sampled_from(["vary_rounds", "truncate_error"]))
@@ -534,7 +618,7 @@ def t_update(rec, seed, tier, shard):
                 change.pop(k, None)
             cfg[draw(st.sampled_from([g, "all__" + g]))] = draw(st.sampled_from(vals))
             change[draw(st.sampled_from([g, "all__" + g]))] = draw(st.sampled_from(vals))
-        return {"config": cfg, "change": change, "how": draw(st.sampled_from(["kw", "dict", "load-update"]))}
+        return {"config": cfg, "change": change, "how": draw(st.sampled_from(["kw", "kw", "dict", "load-update", "using", "copy-kw", "load_path-update", "load_path-update"]))}
 
     def body(case):
         rec.ev()
